@@ -13,6 +13,7 @@ TRANS_PIPELINES = [
     [["root_attach", {}]],
     [["root_attach", {}], ["negra_mark_heads", {}], ["boyd_split", {}], ["raising", {}]],
     [["negra_mark_heads", {}], ["binarize", {}]],
+    [["root_attach", {}], ["negra_mark_heads", {}], ["boyd_split", {}]],
     [["mark_heads_by_rules", {"mark_heads_preset": "negra"}]],
     [["punctuation_root", {}]],
     [["root_attach", {}], ["punctuation_verylow", {}]],
@@ -77,6 +78,22 @@ def gen_convert(rng, tier, base, cli):
     if any(t[0] == "negra_mark_heads" for t in trans) and rng.random() < 0.4 \
             and dfmt in ("export", "brackets", "discobrackets"):
         dopts["mark_heads_marking"] = True
+    if any(t[0] == "boyd_split" for t in trans) and dfmt in ("export", "brackets",
+                                                             "discobrackets"):
+        if rng.random() < 0.5:
+            dopts["boyd_split_marking"] = True
+        if rng.random() < 0.3:
+            dopts["boyd_split_numbering"] = True
+    if dfmt in ("export", "brackets", "discobrackets") and rng.random() < 0.25:
+        dopts["gf"] = True
+        if rng.random() < 0.4:
+            dopts["gf_separator"] = rng.choice(["#", "~", "-"])
+        if rng.random() < 0.3:
+            dopts["gf_terminals"] = True
+    if dfmt == "brackets" and rng.random() < 0.3:
+        dopts["brackets_emptyroot"] = True
+    if dfmt == "terminals" and rng.random() < 0.5:
+        dopts[rng.choice(["terminals_pos", "terminals_one"])] = True
     dest = "%s/out%s" % (base, DEST_EXT[dfmt])
     sopts = {"quiet": True}
     if rng.random() < 0.2:
@@ -92,7 +109,8 @@ def gen_convert(rng, tier, base, cli):
         argv = ["transform", path, dest, "--src-format", fmt, "--dest-format", dfmt,
                 "--src-opts"] + sorted(sopts)
         if dopts:
-            argv += ["--dest-opts"] + sorted(dopts)
+            argv += ["--dest-opts"] + ["%s:%s" % (k_, v_) if v_ is not True else k_
+                                       for k_, v_ in sorted(dopts.items())]
         if trans:
             argv += ["--trans"] + [t[0] for t in trans]
             params = {}
